@@ -107,7 +107,7 @@ QJsonObject generate()
         const bool c06 = prop == "C06";
         const int wShare = c06 ? 62 : 55, advShare = c06 ? 12 : 18, restartShare = c06 ? 10 : 12, flushShare = 3;
         if (k < wShare) {
-            if (big && chance(12)) {
+            if ((big && chance(12)) || (!big && compress && prop == "C05" && chance(3))) { // C05 too: records inside compressed files beyond the 8 KiB CRC buffer
                 o["o"] = "big";
                 o["cls"] = pick(0, 3);
                 static const int lens[] = { 8191, 8192, 8193, 65535, 65536, 65537, 20000, 131073, 262145 };
@@ -343,7 +343,7 @@ bool check(World &w, std::vector<FileSnap> &files, bool afterWrite, Violation &v
 
     // ---- C08: every *.gz is one complete, valid gzip member ----
     for (auto *f : rot)
-        if (f->gz && !f->gzValid) { v = { "C08", "compressed file '" + f->name + "' is not a valid gzip stream: " + f->gzError }; return false; }
+        if (f->gz && !f->gzValid) { v = { "C05,C08", "compressed file '" + f->name + "' is not a valid gzip stream (its records cannot be read back): " + f->gzError }; return false; }
 
     // ---- resolve record ranges, newest to oldest (C05: whole consecutive records, nothing duplicated or reordered) ----
     long long nextStart = total;
